@@ -13,7 +13,8 @@ ID = "C10"
 LEAN_MODULE = "Ctrmml.Properties.C10"
 THEOREMS = ["C10_unique_data_spec", "C10_seq_bytes_unchanged", "C10_relocation_sound", "C10_song_numbering",
             "C10_unique_string_terminates", "C10_identifiers_unique_valid", "C10_linker_idempotent_query",
-            "C10_pcm_region_sound_partial", "C10_offset_window_counterexample"]
+            "C10_pcm_region_sound_partial", "C10_offset_window_counterexample",
+            "C10_pcm_histories_partial", "C10_pcm_later_songs_keep_partial"]
 LEVEL = "proof"
 STREAM = "link.out"
 CHUNK = 20
@@ -23,7 +24,9 @@ RULE = ("histories of add_song/get_seq_data on a fresh MDSDRV_Linker: 1..6 MDS f
         "data; PCM on generated 8/16-bit WAVs incl. rate/offset overrides and samples larger than a 32 KiB bank; MML text inputs), "
         "hand-assembled MDS files (shared/duplicate/prefix/empty data entries, shared and overlapping PCM windows, flagged ids), "
         "equal and clashing file and group names (case, blanks, punctuation, non-ASCII, leading digits, MIN/MAX, suffix clashes), every "
-        "order of <= 3 songs over a 4-song base set, intermediate queries, pitch-code boundaries, and truncated / corrupted files. "
+        "order of <= 3 songs over a 4-song base set, intermediate queries, pitch-code boundaries, a PCM placement family (samples built "
+        "from one pattern: prefixes, zero tails, all-zero samples, repeats at other rates / loop starts, fillers ending around a 32 KiB "
+        "bank boundary or larger than a bank, alignment gaps refilled later), and truncated / corrupted files. "
         "non-trivial = more than one plain song; distinct by request text")
 EXPLANATION = ("theorems over Model/Linker + Spec/Link for all histories; the model is tied to mdsdrv.cpp by running both on the generated "
                "histories and diffing every answer byte (sequence bank, PCM bank, both headers, statistics, per-op results); the spec "
@@ -163,6 +166,61 @@ def raw_song(rng, grp=None, nslots=None, pcm_ok=True, d11=False):
             entries.append((b"glob", i | flag, d))
     g = rng.choice([b"", b"", b"bgm", b"BGM", b"sfx", b"se 1", b"1up", b"a-b", b"\xc3\xa9", b"A_B", b"a"]) if grp is None else grp
     return mds(grp=g, seq=seq, dblk=entries, pcmd=pcmd), tags
+
+
+# ------------------------------------------------------------------ PCM placement family
+BANK = 32768   # MDSDRV_Linker::wave_rom(0x3f8000, 0x8000)
+
+
+def pcm_family(rng, big=False):
+    """2..4 songs whose samples are built from one base pattern: prefixes of it, the pattern with a zero tail (must not be
+    matched against unallocated rom behind a stored copy), all-zero samples, repeats at other rates / loop starts, fresh data;
+    `big`: a filler that ends just before / at / after a 32 KiB bank boundary or is larger than a bank, so that the following
+    samples are moved to the next bank or to the next multiple of 32 and leave alignment gaps that later small samples fill.
+    returns (songs [(name, mds)], tags)"""
+    base = fill(rng.choice([24, 40, 64, 96, 200]), rng.randrange(256))
+    pool, tags = [], set(["pcm", "pcm-family"])
+
+    def shape():
+        k, n = rng.random(), rng.randrange(1, len(base) + 1)
+        if k < .2: return base[:n], "pcm-prefix"
+        if k < .45: return base[:n] + b"\0" * rng.choice([1, 2, 7, 31, 32, 33, 64]), "pcm-zero-tail"
+        if k < .55: return base + bytes([rng.randrange(1, 256)]) * rng.randrange(1, 5), "pcm-extended"
+        if k < .65: return b"\0" * rng.choice([1, 5, 32, 64]), "pcm-all-zero"
+        if k < .72: return base[n // 2:], "pcm-suffix"
+        if k < .87 and pool: return rng.choice(pool), "pcm-repeat"
+        return fill(rng.choice([3, 17, 32, 33, 100]), rng.randrange(256)), "pcm-fresh"
+
+    songs = []
+    ns = rng.randrange(2, 5)
+    for si in range(ns):
+        datas = []
+        if big and si == 0:
+            kind = rng.choice(["before", "at", "after", "over"])
+            size = {"before": BANK - rng.choice([1, 5, 31, 33, 100]), "at": BANK, "after": BANK + rng.choice([1, 32, 100]),
+                    "over": rng.choice([40000, 65536 - 7, 70001])}[kind]
+            datas.append(fill(size, rng.randrange(256)))
+            tags.add("pcm-bank-boundary")
+            if rng.random() < .5:
+                datas.insert(0, fill(rng.choice([1, 7, 33]), rng.randrange(256)))   # the filler does not start on a multiple of 32
+                tags.add("pcm-align-gap")
+        for _ in range(rng.randrange(1, 4)):
+            d, t = shape()
+            datas.append(d)
+            pool.append(d)
+            tags.add(t)
+        if not big:
+            rng.shuffle(datas)
+        nsl = len(datas)
+        seq = struct.pack(">H", 2) + bytes(rng.randrange(256) for _ in range(2 * nsl + rng.choice([0, 1, 3])))
+        pcmd, entries = b"", []
+        for i, d in enumerate(datas):
+            if rng.random() < .3:
+                pcmd += b"\xaa" * rng.randrange(1, 4)
+            entries.append((b"pcmh", i, sample(len(pcmd), 0, len(d), rate=rng.choice([8000, 8000, 17500, 4000]), ls=rng.choice([0, 0, 0, 3]))))
+            pcmd += d
+        songs.append(("p%d" % si, mds(grp=rng.choice([b"", b"", b"sfx"]), seq=seq, dblk=entries, pcmd=pcmd)))
+    return songs, tags
 
 
 # ------------------------------------------------------------------ stage-1 song descriptions
@@ -358,6 +416,14 @@ def stage1(reqs):
 
 
 def cases(rng, tier):
+    """VERIF_C10_FAMILY=<family> restricts the run to one case family (used to see which family catches a seeded change)"""
+    only = os.environ.get("VERIF_C10_FAMILY")
+    for c in all_cases(rng, tier):
+        if not only or c.family == only:
+            yield c
+
+
+def all_cases(rng, tier):
     quick = tier == "quick"
     EXPECT.clear()
     for req, tags in corpus():
@@ -458,6 +524,12 @@ def cases(rng, tier):
         if q:
             tags.add("query")
         yield Case(link_req(songs, q), sorted(tags), "raw")
+
+    # ---- PCM placement family: shared prefixes, zero tails, all-zero samples, alignment gaps, bank boundaries
+    for k in range(45 if quick else 500):
+        songs, tags = pcm_family(rng, big=(k % 9 == 8))
+        q = [rng.randrange(0, len(songs) + 1)] if rng.random() < .3 else []
+        yield Case(link_req(songs, q), sorted(tags | {"raw", "songs-%d" % len(songs)} | ({"query"} if q else set())), "pcm-family")
 
     # ---- many data entries: the 32 KiB data bank limit
     for k in range(1 if quick else 4):
